@@ -93,6 +93,13 @@ func evalConst(pkg string, e ast.Expr) string {
 		if len(x.Args) == 1 {
 			return evalConst(pkg, x.Args[0])
 		}
+		if len(x.Args) == 0 { // curve constructors: elliptic.P256(), btcec.S256()
+			if sel, ok := x.Fun.(*ast.SelectorExpr); ok {
+				if id, ok := sel.X.(*ast.Ident); ok {
+					return strconv.Quote(id.Name + "." + sel.Sel.Name)
+				}
+			}
+		}
 	case *ast.ParenExpr:
 		return evalConst(pkg, x.X)
 	}
@@ -313,6 +320,22 @@ func genTables() string {
 		fmt.Fprintf(&b, "Definition gen_hash_codes : list (Z * string) := [%s].\n", strings.Join(items, "; "))
 	} else {
 		b.WriteString("Definition gen_hash_codes_missing : unit := tt.\n")
+	}
+	if t, ok := switchTable("pkg/util/ecsigner", "", "getHasher", func(pkg string, body []ast.Stmt) string {
+		for _, st := range body {
+			if rs, ok := st.(*ast.ReturnStmt); ok && len(rs.Results) == 1 {
+				return evalConst(pkg, rs.Results[0])
+			}
+		}
+		return ""
+	}); ok {
+		items := make([]string, len(t))
+		for i, p := range t {
+			items[i] = "(" + coqLit(p[0]) + ", " + coqLit(p[1]) + ")"
+		}
+		fmt.Fprintf(&b, "Definition gen_sign_hashers : list (string * string) := [%s].\n", strings.Join(items, "; "))
+	} else {
+		b.WriteString("Definition gen_sign_hashers_missing : unit := tt.\n")
 	}
 	for _, nm := range [][2]string{{"gen_jcs_ascii_escapes", "asciiEscapes"}, {"gen_jcs_binary_escapes", "binaryEscapes"}} {
 		if l, ok := listElems("pkg/internal/jsoncanonicalizer", nm[1]); ok {
